@@ -76,3 +76,10 @@ chk('C06', 'model_checking',
     'processing point: valid for the final scene (RouteValid), cost(incremental) <= cost(fresh router) as integer-square-root intervals, a no-op transaction changes nothing (bit-exact).',
     'Rectangular shapes, 3 shapes / 2 connectors, documented preconditions and interior-disjointness as generator rules. The dead selective-reroute test was repaired (fix: commit a8080b2). F4 is a known finding.',
     'TLA+ API state machine; TLC-generated histories replayed; trace validation; record validation against a fresh router', '4/C06')
+
+chk('C10', 'model_checking',
+    'Nudge.tla judges raw route R and displayed route D of every connector of a scene: D keeps R\'s first and last point, has no more segments, still visits every checkpoint; interior segments of two '
+    'connectors without a common endpoint are not collinear-overlapping when the channel between the nearest immovable things (buffered obstacle sides, first/last segments) has room; parallel interior '
+    'segments are coincident or at least d/10 apart. Scenes: corridor family (width 0..40 x 2..4 connectors x option/distance combinations) and seeded random scenes with checkpoints.',
+    'Known findings F13 (option moves endpoints/checkpoints), F25 (nudging assertion), F26 (checkpoint excursion dropped from the displayed route). Channel rule conservative: room for k+1 spacings.',
+    'TLA+ declarative nudging specification; record validation of raw/displayed route pairs', '4/C10')
